@@ -82,6 +82,22 @@ func runScenario(name string, cfgSeed uint64, ch func(int, []int) int, grace tim
 		return runRows(genRowsCfg(rng), ch, grace)
 	case "snap":
 		cfg := genRowsCfg(rng)
+		// rows that were never inserted are not part of a snapshot: keep the scenario to live rows
+		keep := func(l []uint32) (out []uint32) {
+			for _, o := range l {
+				if o != virginRow {
+					out = append(out, o)
+				}
+			}
+			return
+		}
+		cfg.rows = keep(cfg.rows)
+		for i := range cfg.writers {
+			cfg.writers[i].rows = keep(cfg.writers[i].rows)
+			if len(cfg.writers[i].rows) == 0 {
+				cfg.writers[i].rows = []uint32{0}
+			}
+		}
 		cfg.readers, cfg.ranger = nil, false
 		for i := range cfg.writers {
 			cfg.writers[i].abort = false
@@ -164,8 +180,13 @@ func cmdSched(args []string) {
 		for _, name := range strings.Split(*scen, ",") {
 			for i := 0; i < *n; i++ {
 				cfgSeed := rng.U64() % 1000000
-				rc := &randomChooser{rng: rng.Fork(uint64(i)), keep: 55}
-				record(name, cfgSeed, runScenario(name, cfgSeed, rc.choose, grace))
+				if i%2 == 0 {
+					rc := &randomChooser{rng: rng.Fork(uint64(i)), keep: 55}
+					record(name, cfgSeed, runScenario(name, cfgSeed, rc.choose, grace))
+				} else {
+					pc := newPCT(rng.Fork(uint64(i)), 1+i%3, 60)
+					record(name, cfgSeed, runScenario(name, cfgSeed, pc.choose, grace))
+				}
 			}
 			// depth-first enumeration of all schedules of a few configurations
 			budget := *dfs
